@@ -104,6 +104,38 @@ def lit_program(r):
     return lines(L + [")"]), len(L), call_line
 
 
+
+def arity_program(r):
+    """a call statement (or a return statement) that binds the names r["given"] to a
+    callee (pipeline) that declares r["decl"]; returns (source, lines of the statement)"""
+    decl, given, where = r["decl"], r["given"], r["where"]
+    L = []
+    if where == "return":
+        L += ["stage G(", "    out int v,", "    src comp \"g\",", ")", ""]
+        L += ["pipeline TOP("] + ["    out int %s," % n for n in decl] + [")", "{", "    call G(", "    )", ""]
+        a = len(L) + 1
+        L += ["    return ("] + ["        %s = G.v," % n for n in given] + ["    )"]
+        b = len(L)
+        L += ["}", "", "call TOP(", ")"]
+        return lines(L), list(range(a, b + 1))
+    L += ["stage K("] + ["    in  int %s," % n for n in decl] + ["    out int y,", "    src comp \"k\",", ")", ""]
+    callee = "K"
+    if where == "pipeline":
+        L += ["pipeline INNER("] + ["    in  int %s," % n for n in decl] + ["    out int y,", ")", "{", "    call K("]
+        L += ["        %s = self.%s," % (n, n) for n in decl] + ["    )", "", "    return (", "        y = K.y,", "    )", "}", ""]
+        callee = "INNER"
+    if where == "top":
+        a = len(L) + 1
+        L += ["call K("] + ["    %s = 1," % n for n in given] + [")"]
+        return lines(L), list(range(a, len(L) + 1))
+    L += ["pipeline TOP(", "    out int y,", ")", "{"]
+    a = len(L) + 1
+    L += ["    call %s(" % callee] + ["        %s = 1," % n for n in given] + ["    )"]
+    b = len(L)
+    L += ["", "    return (", "        y = %s.y," % callee, "    )", "}", "", "call TOP(", ")"]
+    return lines(L), list(range(a, b + 1))
+
+
 BASE = DECLS + """stage P(
     in  int z,
     out int v,
